@@ -49,6 +49,14 @@ def run_one(p):
     model = RFM(kernel=kname, bandwidth=p['bandwidth'], exponent=p['q'], iters=p['iters'], device='cpu', verbose=False,
                 bandwidth_mode='adaptive' if adaptive else 'constant',
                 tuning_metric='accuracy' if p.get('maximize') else 'mse', diag=p['diag'], **kw)
+    if p.get('refit'):
+        # object history: the same estimator was fitted before on another training set (same or other size)
+        n0 = n if p['refit'] == 'same-size' else max(4, n - 3)
+        X0 = torch.randn(n0, d, generator=g, dtype=torch.float64) * p['xscale']
+        y0 = torch.tanh(X0 @ W / p['xscale'])
+        model._compute_validation_metrics = lambda *a, **k: {model.tuning_metric: 1.0}     # scripted (no label decoder is configured)
+        model.fit((X0, y0), (Xv, yv), iters=min(p['iters'], 1), reg=p['lam'], verbose=False, solver=p['solver'], early_stop_rfm=False)
+        del model._compute_validation_metrics
     rec = ScriptedFit(model, scores=p['scores'])
     model.fit((X, y), (Xv, yv), iters=p['iters'], reg=p['lam'], return_best_params=p['return_best'],
               early_stop_rfm=p['early'], early_stop_multiplier=p['mult'], verbose=False, solver=p['solver'],
@@ -155,6 +163,8 @@ def gen_cases(run):
     # the AGOP of the selected model, computed after the restore and "not in place" (what every xRFM leaf fit asks for)
     for c in cases:
         c['agop_best'] = r.random() < 0.5
+    for c in cases:
+        c['refit'] = r.choice([None, None, None, 'same-size', 'other-size'])
     for c in cases:  # lpq needs q <= p; fix up
         if c['kernel'][0] == 'lpq':
             c['q'] = min(c['q'], c['kernel'][1]['norm_p'])
